@@ -91,3 +91,17 @@ Theorem C16_rpc_needs_unsucceeded : forall w a,
   exists key resp dberr s, a = Begin CSug key resp dberr /\ c_sug w = Some s /\ s_is (s_st s) SSucceeded = false.
 Proof. exact rpc_needs_unsucceeded. Qed.
 Print Assumptions C16_rpc_needs_unsucceeded.
+
+(* Two step clauses of the C16 monitor (a verdict is withdrawn only when the restart is enabled; no algorithm call by a
+   suggestion reconcile whose cached suggestion is Succeeded) hold on the model's own projected states for every history. *)
+From KV Require Proofs.MonSound Corr.WorldMon.
+Theorem C16_monitor_restart_sound : forall w acts,
+  Inv w -> no_teardown acts ->
+  WorldMon.all_steps (WorldMon.restart_step (w_cfg w)) (WorldC.project w) (MonSound.msteps w acts) = true.
+Proof. exact MonSound.restart_steps_model. Qed.
+Print Assumptions C16_monitor_restart_sound.
+
+Theorem C16_monitor_rpc_sound : forall w acts,
+  WorldMon.rpc_walk (option_map MonSound.psug_of (c_sug w)) (WorldC.project w) (MonSound.msteps w acts) = true.
+Proof. exact MonSound.rpc_walk_model. Qed.
+Print Assumptions C16_monitor_rpc_sound.
